@@ -398,9 +398,18 @@ pub struct SessCase {
     pub seq: u8,
 }
 
-fn fragment_of(kind: u8, seq: u8) -> (Vec<u8>, &'static str) {
+fn fragment_of(kind: u8, seq: u8, outstanding: Option<(u8, bool)>) -> (Vec<u8>, &'static str) {
     let seq = seq & 0x0F;
-    match kind % 12 {
+    match kind % 14 {
+        // a CONFIRM that matches the response awaiting confirmation (if any), solicited or unsolicited as required
+        12 => match outstanding {
+            Some((s, uns)) => (Fragment::confirm(s, uns).encode(), "matching CONFIRM"),
+            None => (Fragment::confirm(seq, false).encode(), "stray CONFIRM"),
+        },
+        13 => match outstanding {
+            Some((s, uns)) => (Fragment::confirm(s, !uns).encode(), "CONFIRM with the other UNS bit"),
+            None => (Fragment::confirm(seq, true).encode(), "stray unsolicited CONFIRM"),
+        },
         0 => (
             Fragment::request(seq, func::READ, ra::h_all(60, 1)).encode(),
             "valid READ",
@@ -471,7 +480,7 @@ impl Prop for Sess {
             any::<bool>(),
             prop_oneof![3 => Just(true), 1 => Just(false)],
             0u8..6,
-            0u8..12,
+            0u8..14,
             0u8..16,
         )
             .prop_map(
@@ -555,11 +564,22 @@ async fn run_sess(case: &SessCase) -> CaseOut {
         }
         _ => {}
     }
-    let _ = rig.take_tx();
+    // the response that is awaiting its confirmation, if any: (sequence number, unsolicited)
+    let outstanding: Option<(u8, bool)> = rig
+        .take_tx()
+        .iter()
+        .rev()
+        .find_map(|t| match t {
+            Tx::Fragment { bytes, .. } if bytes.len() >= 2 && bytes[0] & 0x20 != 0 => Some((bytes[0] & 0x0F, bytes[1] == func::UNSOLICITED_RESPONSE)),
+            _ => None,
+        });
     let _ = rig.shared.take_log();
     out.label(format!("state:{}", case.state));
 
-    let (frag, what) = fragment_of(case.kind, case.seq);
+    let (frag, what) = fragment_of(case.kind, case.seq, outstanding);
+    if case.kind % 14 >= 12 && outstanding.is_some() {
+        out.label("confirm_for_outstanding_response");
+    }
     let (src, dst) = match case.origin {
         0 => (MASTER_ADDR, OUTSTATION_ADDR),
         1 => (55u16, OUTSTATION_ADDR),
@@ -570,7 +590,7 @@ async fn run_sess(case: &SessCase) -> CaseOut {
     };
     let is_broadcast = dst >= 0xFFFD;
     let foreign = src != MASTER_ADDR;
-    let valid = matches!(case.kind % 12, 0 | 1 | 2 | 3 | 11);
+    let valid = matches!(case.kind % 14, 0 | 1 | 2 | 3 | 11 | 12 | 13);
     if !valid && (is_broadcast || foreign) {
         out.nontrivial = true;
         out.label("invalid_fragment_from_foreign_or_broadcast");
@@ -597,7 +617,12 @@ async fn run_sess(case: &SessCase) -> CaseOut {
             | Cb::Select(..)
             | Cb::Operate(..)
             | Cb::ControlBegin
-            | Cb::ClearRestartIin => Some(format!("{:?}", cb)),
+            | Cb::ClearRestartIin
+            // a confirmation that is acted upon
+            | Cb::BeginConfirm
+            | Cb::EventCleared(_)
+            | Cb::SolConfirmReceived(_)
+            | Cb::UnsolConfirmed(_) => Some(format!("{:?}", cb)),
             _ => None,
         })
         .collect();
@@ -606,6 +631,11 @@ async fn run_sess(case: &SessCase) -> CaseOut {
             out.fail(
                 Fail::new("reply-to-broadcast", format!("{what} sent to broadcast address {dst:#06x} from {src} in state {}: the outstation transmitted {:02x?}", case.state, tx))
                     .with_sig(format!("C07 reply-to-broadcast kind={}", if valid { "valid" } else { "invalid" })),
+            );
+        }
+        if case.kind % 14 >= 12 && !executed.is_empty() {
+            out.fail(
+                Fail::new("broadcast-confirm-acted-on", format!("{what} sent to broadcast address {dst:#06x} in state {} was acted upon: {:?}", case.state, executed)).with_sig("C07 broadcast confirm acted on"),
             );
         }
         if foreign && !case.any_master && !executed.is_empty() {
@@ -642,7 +672,7 @@ async fn run_sess(case: &SessCase) -> CaseOut {
         }
         if valid
             && case.state == 0
-            && case.kind % 12 != 3
+            && !matches!(case.kind % 14, 3 | 12 | 13)
             && !app_frags
                 .iter()
                 .any(|(d, b)| *d == src && b.len() >= 2 && b[1] == func::RESPONSE)
